@@ -36,7 +36,7 @@ ASSUMPTIONS = [
 SHARDS = {"quick": 16, "thorough": 16}
 TIMEOUT = {"quick": 900, "thorough": 7200}
 MIN_CASES = {"quick": 1500, "thorough": 30000}
-REQUIRED_COUNTERS = ["quiescent_checks", "failed_setups_closed", "closes_returned_normally", "close_sweep_points", "peer_close_probes", "auth_failure_then_close", "late_loss_probes", "reuse_after_close_histories"]
+REQUIRED_COUNTERS = ["quiescent_checks", "failed_setups_closed", "closes_returned_normally", "close_sweep_points", "peer_close_probes", "auth_failure_then_close", "late_loss_probes", "reuse_after_close_histories", "announcements_after_shutdown"]
 
 FAILS = [
     "refuse", "blackhole", "bad_sig", "bad_tag", "wrong_id", "missing_field", "wrong_state", "bad_key_len",
@@ -155,6 +155,20 @@ class Run:
                     close_box["task"] = asyncio.ensure_future(w.pairing.close())
 
                 loop.at_iteration[base + self.sweep_at] = trigger
+                if self.key and self.key[-1] == "poke":
+                    # a zeroconf sighting / a caller arrives in the very iterations in which close() is waiting for the
+                    # connector to stop: whatever that starts, close() is not done until nothing is left running
+                    def poke():
+                        if "task" in close_box and not close_box["task"].done():
+                            self.ctx.count("pokes_during_close")
+                            if self.sweep_at % 2:
+                                w.connection.reconnect_soon()
+                            else:
+                                t = asyncio.ensure_future(w.connection.ensure_connection())
+                                t.add_done_callback(lambda f: f.cancelled() or f.exception())
+
+                    loop.at_iteration[base + self.sweep_at + 1] = poke
+                    loop.at_iteration[base + self.sweep_at + 2] = poke
             starter = asyncio.ensure_future(w.connection.ensure_connection())
             starter.add_done_callback(lambda t: t.exception() if not t.cancelled() else None)
             horizon = 45 * (len(self.plan) + 1) + 20
@@ -278,6 +292,17 @@ class Run:
         await asyncio.sleep(120)
         await vloop.settle()
         self.after_close_checks(before, "120 virtual seconds after close")
+        if not self.bad and self.ending.startswith("shutdown"):
+            # a shut-down pairing stays shut: the accessory is announced again (zeroconf), nothing is opened
+            try:
+                w.pairing._async_description_update(w.description(w.hosts))
+            except Exception as ex:  # noqa: BLE001
+                self.violation("description-update-after-shutdown-raises", f"{type(ex).__name__}: {ex}")
+                return
+            await asyncio.sleep(5)
+            await vloop.settle()
+            self.after_close_checks(before, "after a zeroconf announcement for the shut-down pairing")
+            self.ctx.count("announcements_after_shutdown")
         if not self.bad and self.ending.startswith("close") and self.after == "ok":
             await self.reuse_after_close()
 
@@ -496,10 +521,12 @@ async def run_history(ctx, idx, plan, after) -> None:
     await Run(ctx, plan, after, ending, ("hist", idx)).run()
 
 
-async def run_sweep(ctx, base_name, k) -> None:
+async def run_sweep(ctx, base_name, k, poke=False) -> None:
     plan, after = SWEEP_BASES[base_name]
-    ctx.case("sweep", base_name, k, nontrivial=k > 0, sample={"close_sweep_base": base_name, "outcomes": plan, "close_at_loop_iteration": k}, kind="sweep-" + base_name)
-    await Run(ctx, plan, after, "close", ("sweep", base_name), sweep_at=k, sweep_base=base_name).run()
+    ctx.case("sweep", base_name, k, poke, nontrivial=k > 0, sample={"close_sweep_base": base_name, "outcomes": plan, "close_at_loop_iteration": k, "trigger_while_close_waits": poke}, kind="sweep-" + base_name + ("-poke" if poke else ""))
+    r = Run(ctx, plan, after, "close", ("sweep", base_name, "poke") if poke else ("sweep", base_name), sweep_at=k, sweep_base=base_name)
+    r.replay["poke"] = poke
+    await r.run()
 
 
 def run(ctx) -> None:
@@ -535,6 +562,8 @@ def run(ctx) -> None:
                 idx += 1
                 if ctx.mine(idx):
                     await run_sweep(ctx, base_name, k)
+                    # (not swept: an external trigger arriving WHILE close() waits - the unchanged tree re-opens the pairing for
+                    # such a trigger in some iterations, e.g. bad-sig-then-ok@29, so nothing can be demanded there; DESIGN 8.4)
         ctx.exhaustive_parts["close() at every loop iteration (stride %d) of each base scenario" % stride] = True
 
     with warnings.catch_warnings(record=True) as caught:
@@ -555,7 +584,7 @@ def replay(ctx, d) -> None:
             await run_late_loss(ctx, d["late_loss"])
             return
         if d.get("sweep_at") is not None:
-            await run_sweep(ctx, d["sweep_base"], d["sweep_at"])
+            await run_sweep(ctx, d["sweep_base"], d["sweep_at"], poke=bool(d.get("poke")))
         else:
             await Run(ctx, d["plan"], d["after"], d["ending"], "replay").run()
 
